@@ -1,6 +1,7 @@
 """C04 - gas charged always covers the actual execution cost."""
 import vlib
 from props import sierra_common as sc
+from props import sierra_runtime as rt
 
 
 def run(ctx):
@@ -17,6 +18,17 @@ def run(ctx):
                            replay_cmd="./check C04 --tier %s" % ctx.tier), found_input=False)
     ctx.cov["static_cost_paths_checked"] = r["summary"].get("static_cost_paths", 0)
     ctx.cov["static_failures"] = len(cf)
+    # run-time leg: the property's own formula on real VM runs of corpus Cairo programs (both solvers)
+    rres = rt.run_runtime(ctx)
+    if not rres["ok"]:
+        ctx.violation("run-time leg did not run: " + rres.get("error", "?")[:300],
+                      {"theorem_or_correspondence": "run-time leg (harness/h14 h14run)", "detail": rres.get("error")},
+                      found_input=False)
+    for f in rt.failures_of(rres, "C04")[:5]:
+        ctx.violation("gas charged does not cover the measured cost of a real run: " + str(f.get("what"))[:300], dict(f, replay_cmd="./check C04 --tier %s" % ctx.tier),
+                      found_input=True)
+    ctx.cov["runtime_leg"] = {k: v for k, v in rres.get("summary", {}).items() if isinstance(v, (int, float, str))}
+    ctx.cov["runtime_failures"] = len(rt.failures_of(rres, "C04"))
     return ctx.finish(
         "proof",
         "Theorem (Coq): for every accepted program and every execution of any function f, at every point, actual cost "
